@@ -374,6 +374,7 @@ def feasible(hyps, timeout_ms=None):
 class PathState:
     def __init__(self, decisions=()):
         self.pc = []
+        self.pc_names = {}
         self.qfacts = []
         self.pool = []
         self.decisions = list(decisions)
@@ -409,11 +410,15 @@ class PathState:
         return Sym(self.fresh(base, sort, is_input), gdeps)
 
     # -- facts ----------------------------------------------------------
-    def assume(self, z):
+    def assume(self, z, name=None):
+        """name: optional tag; a tagged fact is hidden from obligations whose
+        `using` list does not select it (like a named quantified fact)"""
         z = as_bool(z)
         if z3.is_true(z):
             return
         self.pc.append(z)
+        if name:
+            self.pc_names[z.get_id()] = name
 
     def assume_forall(self, sorts, fn, name=""):
         self.qfacts.append(QFact(sorts, fn, name))
@@ -473,8 +478,11 @@ class PathState:
         if self.suppress:
             return
         qf = self.qfacts
+        pc = self.pc
         if using is not None:
             qf = [q for q in self.qfacts if any(q.name.startswith(u) for u in using)]
+            if self.pc_names:
+                pc = [h for h in self.pc if h.get_id() not in self.pc_names or any(self.pc_names[h.get_id()].startswith(u) for u in using)]
         z = as_bool(goal)
         z = z3.simplify(z)
         if z3.is_true(z):
